@@ -34,6 +34,10 @@ CLAIMED["C04"] = ("For every received slot-type / EMB word and every received da
 CLAIMED["C01"] = ("Data bursts: payload = every object the PDU decoders produce from symbolic bits (all field values of all supported kinds), colour code symbolic, "
                   "assembled as the library's generator does, then as_bits -> from_bits -> as_bits / as_bytes -> from_bytes: data type, colour code, sync, every payload "
                   "field and all 264 bits equal. Voice bursts: all 2^216 vocoder payloads around each voice sync and around valid EMB with any 32 embedded bits.", "6/C01")
+CLAIMED["C12"] = ("Every implemented (service, opcode) of RRS/LP/TMP/RCP: the PDU is obtained by parsing a frame with symbolic payload octets, reliable/confirmed flags and "
+                  "checksum octet (all in-range field values), then framing (service byte, opcode, length field, independent checksum, terminator, len()), parse -> serialise "
+                  "equality, field equality, flags forced both ways, nesting in HRNP (length, ones-complement checksum, re-parse) and in HSTRP with 0..2 options. GPS text "
+                  "fields are concrete witnesses, not solver-decided.", "6/C12")
 NOT_YET = {}
 props = [json.loads(l) for l in open(os.path.join(V, "properties.jsonl"))]
 checks = []
